@@ -1,6 +1,10 @@
 //! `hv <property> <tier> <seed> <cases-file> <stats-file>`: run the real Humphrey code on generated
 //! cases and write one line per case (`fn<TAB>args...<TAB>impl-output`) for the Lean driver.
+mod alloc;
 mod common;
+mod c19;
+mod c03;
+mod worker;
 mod c01;
 mod c04;
 mod c13;
@@ -16,8 +20,20 @@ mod c07;
 mod httpgen;
 mod tables;
 
+#[global_allocator]
+static GLOBAL: alloc::Counting = alloc::Counting;
+
+/// Direct execution of one case inside this process.
+fn exec_inproc(prop: &str, f: &[String]) -> Option<String> {
+    match prop {
+        "C03" => c03::exec(f),
+        _ => exec(prop, f),
+    }
+}
+
 fn exec(prop: &str, f: &[String]) -> Option<String> {
     match prop {
+        "C03" => c03::exec_isolated(f),
         "C01" | "C04" => c01::exec(f),
         "C02" => c02::exec(f),
         "C05" => c05::exec(f),
@@ -29,6 +45,7 @@ fn exec(prop: &str, f: &[String]) -> Option<String> {
         "C15" => c15::exec(f),
         "C08" => c08::exec(f),
         "C13" => c13::exec(f),
+        "C19" => c19::exec(f),
         _ => None,
     }
 }
@@ -37,6 +54,11 @@ fn main() {
     let args: Vec<String> = std::env::args().collect();
     if args.len() == 2 && args[1] == "tables" {
         print!("{}", tables::render());
+        return;
+    }
+    if args.len() == 3 && args[1] == "__worker" {
+        std::panic::set_hook(Box::new(|_| {}));
+        worker::worker_main(&args[2], exec_inproc);
         return;
     }
     if args.len() == 2 && args[1] == "__c08child" {
@@ -74,6 +96,7 @@ fn main() {
     let mut out = common::Out::new(&args[4]);
     match args[1].as_str() {
         "C01" => c01::gen(&mut out, thorough, seed),
+        "C03" => c03::gen(&mut out, thorough, seed),
         "C04" => c04::gen(&mut out, thorough, seed),
         "C02" => c02::gen(&mut out, thorough, seed),
         "C05" => c05::gen(&mut out, thorough, seed),
@@ -85,6 +108,7 @@ fn main() {
         "C15" => c15::gen(&mut out, thorough, seed),
         "C08" => c08::gen(&mut out, thorough, seed),
         "C13" => c13::gen(&mut out, thorough, seed),
+        "C19" => c19::gen(&mut out, thorough, seed),
         other => {
             eprintln!("unknown property {}", other);
             std::process::exit(2);
